@@ -121,7 +121,9 @@ type invStats struct {
 //   - "affordable from its balance" is evaluated per transaction (cost <=
 //     balance), which is the pool's own notion (validateTx, txList.Filter: there is
 //     no cumulative accounting anywhere in the pool); the cumulative variant is
-//     only counted.
+//     only counted. Queued transactions are held to the same per-transaction
+//     bound, and both lists to tx.Gas() <= current block gas limit (the pool
+//     filters both lists by balance and gas limit on every reset).
 //   - price index: every remote member of the hash index must be in a heap;
 //     heap entries that are not (any more) remote members are "stale" and must be
 //     covered by the stales counter: |heaps|-stales <= |remotes|, with equality
@@ -178,6 +180,21 @@ func checkInvariants(s *core.VerifPoolSnapshot, localsUsed bool) ([]finding, inv
 			if eff != last+1 {
 				add("pending-nonce-mismatch", "%s: pendingNonces=%d (explicit entry: %v) but last pending nonce is %d (pending %v)",
 					name, eff, x.HasNoncer, last, nonces(x.Pending))
+			}
+		}
+		// (a') every pending and queued transaction fits the current block gas limit; queued ones are affordable too
+		// (the pool filters both lists by balance and gas limit on every reset: promoteExecutables / demoteUnexecutables)
+		for _, tx := range x.Pending {
+			if tx.Gas() > s.CurrentMaxGas {
+				add("pending-gas-above-block-limit", "%s: pending %s asks for gas %d but the current block gas limit is %d", name, txDesc(tx), tx.Gas(), s.CurrentMaxGas)
+			}
+		}
+		for _, tx := range x.Queue {
+			if tx.Gas() > s.CurrentMaxGas {
+				add("queued-gas-above-block-limit", "%s: queued %s asks for gas %d but the current block gas limit is %d", name, txDesc(tx), tx.Gas(), s.CurrentMaxGas)
+			}
+			if c := tx.Cost(); x.StateBalance != nil && c.Cmp(x.StateBalance) > 0 {
+				add("queued-unaffordable", "%s: queued %s costs %s but balance is %s", name, txDesc(tx), c, x.StateBalance)
 			}
 		}
 		if len(x.Pending) > maxPendingPerAcct {
